@@ -1,5 +1,6 @@
 import RasnModel.Basic.Sexp
 import RasnModel.Ts.Shape
+import RasnModel.Ts.Values
 /- line-protocol handler for C18 -/
 namespace Driver.C18
 open Sexp IR Ts
@@ -53,6 +54,19 @@ def handle : List Sexp → String
       sanitize ((if o == m then "ok" else s!"differs:model:{m}:implementation:{o}") ++ "|" ++
         (if o == s then "ok" else s!"bad:jer-shape:{s}:generated:{o}"))
     | _, _, _ => "bad-request"
+  | _ => "bad-request"
+
+/-- a nested list value of integers: `( l <elem>* )`, an integer is an atom -/
+partial def renderListValue : Sexp → Option (List Char)
+  | .atom a => some a.toList
+  | .list (.atom "l" :: xs) => (xs.mapM renderListValue).map Ts.Values.renderList
+  | _ => none
+
+/-- `tslist <value>` ↦ the text the model of the `LinkedArrayLikeValue` arm renders -/
+def handleList : List Sexp → String
+  | [v] => match renderListValue v with
+    | some t => (ofChars t).toStr
+    | none => "bad-request"
   | _ => "bad-request"
 
 end Driver.C18
